@@ -225,7 +225,7 @@ func (p c04) Gen(r *simhook.Rand, tier string, idx int) harness.Scenario {
 		sc.Faults = append(sc.Faults, Fault{Kind: "freeze-view", Node: n, AfterSend: at})
 		sc.Faults = append(sc.Faults, Fault{Kind: "thaw-view", Node: n, AfterSend: at + r.Intn(600)})
 	}
-	if r.Chance(1, 4) {
+	if r.Chance(1, 4) || (emptyTarget && r.Chance(1, 2)) {
 		// a slow node: one master (the migration target when it starts empty) holds its replies back for 6-26 simulated
 		// seconds, longer than the 5 s pause between slot refreshes: redirected requests are still outstanding on its
 		// connection when the refresh they triggered runs
@@ -237,6 +237,9 @@ func (p c04) Gen(r *simhook.Rand, tier string, idx int) harness.Scenario {
 		sc.Faults = append(sc.Faults, Fault{Kind: "unstall", Node: n, AtMs: 6000 + r.Intn(20000)})
 	}
 	sc.MigStepMs = []int{0, 0, 0, 50, 2000, 7000}[r.Intn(6)]
+	if emptyTarget && r.Chance(1, 2) {
+		sc.MigStepMs = []int{2000, 7000}[r.Intn(2)] // the first slots of a new node take their time: it stays slot-less for a while
+	}
 	sort.SliceStable(sc.Faults, func(i, j int) bool { return sc.Faults[i].AfterSend < sc.Faults[j].AfterSend })
 	sc.IdleFaults = true
 	// after everything settled (well beyond the periodic refresh) the layout must be learned: probes see no
